@@ -3,7 +3,7 @@ CONSTANTS
   Kinds <- KindsTwo
   CleanupIds = {"c1"}
   DetailNames <- NamesMid
-  Mismatches = {"m2"}
+  Mismatches = {"m2", "m3"}
   Attrs = {"a_missing", "a_none"}
   Fixtures = {"f_two", "f_bad", "f_cr", "f_gr", "f_nestbad", "f_classic"}
   MaxFaults = 1
